@@ -30,7 +30,12 @@ def plan(tier: str):
             # failing iterations: utilization factor partly out of range
             ('geophires', mc.GEO_BASE, [('Utilization Factor', 'uniform', 0.6, 1.25, None), ('Gradient 1', 'normal', 60.0, 3.0, None)],
              mc.GEO_OUTPUTS[:2], 24, 8),
-            ('hip_ra_x', mc.HIP_BASE, [('Reservoir Porosity', 'uniform', 5.0, 140.0, None)] + mc.HIP_INPUTS[:1], mc.HIP_OUTPUTS, 64, 2)]
+            ('hip_ra_x', mc.HIP_BASE, [('Reservoir Porosity', 'uniform', 5.0, 140.0, None)] + mc.HIP_INPUTS[:1], mc.HIP_OUTPUTS, 64, 2),
+            # quantities of extreme scale and a very narrow distribution: a draw must reach the simulator with all its digits
+            ('geophires', mc.GEO_BASE, [('Reservoir Permeability', 'uniform', 1e-14, 1e-12, None), ('Reservoir Volume', 'normal', 2.0e9, 1.0e8, None)],
+             mc.GEO_OUTPUTS[:1], 12, 4),
+            ('geophires', mc.GEO_BASE, [('Gradient 1', 'uniform', 60.0, 60.000004, None), ('Surface Temperature', 'triangular', 14.999999, 15.0, 15.000001)],
+             mc.GEO_OUTPUTS[:1], 14, 2)]
     if tier == 'thorough':
         for w in (1, 2, 3, 4, 8, 16):
             runs.append(('geophires', mc.GEO_BASE, mc.GEO_INPUTS, mc.GEO_OUTPUTS, rng.choice([30, 60, 100]), w))
